@@ -217,10 +217,14 @@ class Check(object):
     def prove(self, module, extra_targets=('driver',)):
         ''' Build the property module (+driver) and audit its theorems. Returns True when every
         obligation is discharged with allowed axioms only. '''
-        rel = module.replace('.', '/') + '.lean'
-        ok, log = self.lean.build([module] + list(extra_targets))
-        self.cov['checker_cmd'] = 'cd lean && lake build %s && lake env lean <#print axioms of every theorem in %s>' % (module, rel)
-        names = self.lean.theorems_in(rel) if os.path.exists(os.path.join(LEAN, rel)) else []
+        modules = [module] if isinstance(module, str) else list(module)
+        rels_m = [m.replace('.', '/') + '.lean' for m in modules]
+        ok, log = self.lean.build(modules + list(extra_targets))
+        self.cov['checker_cmd'] = 'cd lean && lake build %s && lake env lean <#print axioms of every theorem in %s>' % (' '.join(modules), ' '.join(rels_m))
+        names = []
+        for rel in rels_m:
+            if os.path.exists(os.path.join(LEAN, rel)):
+                names += self.lean.theorems_in(rel)
         self.cov['obligations'] = len(names)
         if not ok:
             mods, errs = self.lean.failing_modules(log)
@@ -237,7 +241,11 @@ class Check(object):
         hits = self.lean.grep_forbidden(rels)
         if hits:
             self.proof_broken.append({'forbidden': hits[:20]})
-        res, out = self.lean.audit(module, rel)
+        res, out = {}, ''
+        for m, rel in zip(modules, rels_m):
+            r1, o1 = self.lean.audit(m, rel)
+            res.update(r1)
+            out += o1
         bad = {}
         good = 0
         allax = set()
@@ -254,7 +262,7 @@ class Check(object):
             self.proof_broken.append({'axioms': bad, 'audit_tail': out[-800:]})
         if self.tier == 'thorough' and not bad:
             # independent re-check of the compiled module (and everything it imports) by leanchecker
-            rc, lout = self.lean._locked(lambda: sh(['lake', 'env', 'leanchecker', module], cwd=LEAN, timeout=1800))
+            rc, lout = self.lean._locked(lambda: sh(['lake', 'env', 'leanchecker'] + modules, cwd=LEAN, timeout=1800))
             self.cov['leanchecker'] = 'ok' if rc == 0 else 'FAILED'
             if rc != 0:
                 self.proof_broken.append({'leanchecker': lout[-800:]})
